@@ -61,6 +61,10 @@ def build(case):
         pol['retry'] = r
     elif kind in ('wait-before', 'wait-after', 'timeout'):
         pol[kind] = v
+        if kind == 'timeout' and case.get('wb'):
+            # the timer must be armed although another policy postpones
+            # the start
+            pol['wait-before'] = case['wb']
     elif kind == 'fail-on':
         pol['fail-on'] = '<% $.ff %>'
     elif kind == 'pause-before':
@@ -147,6 +151,9 @@ def cases(seed, tier):
             c['value'] = prng.randint(1, 3)
             c['async'] = True
             c['late'] = prng.random() < 0.6
+            c['wb'] = prng.choice([0, 0, 1])
+            if c['wb']:
+                c['value'] = c['wb'] + prng.randint(1, 2)
         elif kind == 'fail-on':
             c['ff'] = prng.random() < 0.5
         out.append(c)
